@@ -15,6 +15,7 @@ from vf.gen import tree as gtree
 from vf.model import match as mmatch
 from vf.model import mtext, policy
 from vf.model import update_post
+from vf.fixtures import keys
 from vf.mon import walkperm
 
 ID = 'C19'
@@ -35,7 +36,8 @@ ANCHORS = ['profile:EbuildRepositoryProfile.want_manifest_in_directory',
            'recursiveloader:ManifestRecursiveLoader.create_manifest',
            'cli:CreateCommand.__call__']
 REQUIRED = ['profile:EbuildRepositoryProfile.want_manifest_in_directory',
-            'creates_checked', 'same_loader_cases', 'twin_checked', 'updates_checked', 'profile:ebuild', 'profile:old-ebuild',
+            'creates_checked', 'same_loader_cases', 'twin_checked',
+            'signed_creates_checked', 'updates_checked', 'profile:ebuild', 'profile:old-ebuild',
             'fresh_verifications']
 ASSUMPTIONS = ['top-level directories with sub-directories but no package, and '
                'metadata.xml outside category/package directories, are unconstrained '
@@ -94,6 +96,10 @@ def run_cli(cmd, root, case, wseed, extra_first=()):
         argv += ['-c', str(case['watermark'])]
     if case['format']:
         argv += ['-C', case['format']]
+    if case.get('sign'):
+        # a signed top-level Manifest (the tree of a real repository is signed)
+        argv += ['-s', '-k', keys.KEY_ID]
+        os.environ['GNUPGHOME'] = sign_home().dir
     argv.extend(extra_first)
     argv.append(root)
     try:
@@ -103,6 +109,23 @@ def run_cli(cmd, root, case, wseed, extra_first=()):
         return 'exit:%r' % (exc.code,)
     except Exception as exc:
         return exc
+    finally:
+        os.environ.pop('GNUPGHOME', None)
+
+
+_sign_home = None
+
+
+def sign_home():
+    global _sign_home
+    if _sign_home is None:
+        import atexit
+        from vf.mon import gpgenv
+        _sign_home = gpgenv.Home(direct_trust=True)
+        _sign_home.import_key(keys.PRIVATE_KEY)
+        _sign_home.set_trust(keys.KEY_FINGERPRINT, 6)
+        atexit.register(_sign_home.close)
+    return _sign_home
 
 
 def check_tree(ctx, root, case, phase, new_manifest_dirs):
@@ -352,6 +375,13 @@ def judge(ctx, root, case):
             ctx.count('create_rc:%s' % (rc,))
         return
     ctx.count('creates_checked')
+    if case.get('sign'):
+        with open(os.path.join(root, 'Manifest')) as f:
+            if '-----BEGIN PGP SIGNED MESSAGE-----' not in f.read():
+                ctx.violation('top-level-not-signed', '`create -s` wrote an unsigned '
+                              'top-level Manifest', case)
+                return
+        ctx.count('signed_creates_checked')
     if not check_tree(ctx, root, case, 'create', set(in_use_dirs(root))):
         return
     if twin is not None:
@@ -404,8 +434,12 @@ def run_unit(u, ctx):
                 'rounds': [[{'kind': rng.choice(EDITS), 'pick': rng.randrange(1 << 20)}
                             for _ in range(rng.randint(1, 3))]
                            for _ in range(rng.choice([0, 1, 1, 2, 3]))]}
+        if case['profile'] != 'default' and rng.random() < 0.15:
+            case['sign'] = True
         r = rng.random()
-        if r < 0.2:
+        if case.get('sign'):
+            pass
+        elif r < 0.2:
             case['same_loader'] = True
         elif r < 0.4:
             case['twin'] = rng.randrange(1 << 30)
